@@ -756,7 +756,7 @@ bool PedersenVSS::Reconstruct
 		// broadcast own shares for public reconstruction
 		if (i != dealer)
 		{
-			if (mpz_cmp_ui(sigma_i, 0L) && mpz_cmp_ui(tau_i, 0L))
+			if (mpz_cmp_ui(sigma_i, 0L) || mpz_cmp_ui(tau_i, 0L))
 			{
 				rbc->Broadcast(sigma_i);
 				rbc->Broadcast(tau_i);
